@@ -200,7 +200,7 @@ static void cond_gen(mvsim_rng *r, long *p, int tier) {
   if (mvh_chance(r, tier ? 60 : 30)) {
     static const long crowd[] = { 31, 32, 33, 64, 65, 127, 128, 129, 255, 256, 257, 258, 300, 511, 512, 513, 1000 };
     p[C_SHAPE] = 1; p[C_NWAIT] = mvh_pick(r, crowd, 17); p[Q_QSIZE] = 2 * p[C_NWAIT] + 64; p[Q_YIELD_PM] = 100;
-  }
+  } else if (mvh_chance(r, 150)) p[C_SHAPE] = 5;   /* generation gate whose cond is destroyed and re-initialised right after a broadcast */
 }
 #define ENTER_CS() do { c_occ++; MVH_CHECK(c_occ == 1, "C05-MUTEX-HELD", "thread is inside the monitor without holding the mutex exclusively (occupancy %d)", c_occ); } while (0)
 #define LEAVE_CS() do { c_occ--; } while (0)
@@ -269,6 +269,23 @@ static void *void_waiter(void *arg) {
   while (!void_flag) { cwait(&c_gate); void_returns++; if (!void_flag) void_early++; }
   LEAVE_CS(); myth_mutex_unlock(&cm);
   return (void *)((long)arg + 1);
+}
+/* shape 5: generation gate over several rounds.  The opener broadcasts with the mutex held and, in some rounds, destroys the
+   condition variable straight away (legal: the broadcast has unblocked every waiter, none is blocked on it any more -- the
+   POSIX rationale's own example), scribbles over it and initialises it again for the next round, all before the woken
+   threads have run. */
+static volatile int rg_gen, rg_inside; static volatile long rg_done[16];
+static void *recycle_waiter(void *arg) {
+  long me = (long)arg, rounds = P[C_ROUNDS] > 5 ? 5 : P[C_ROUNDS];
+  for (long r = 0; r < rounds; r++) {
+    YIELD(me * 31 + r);
+    myth_mutex_lock(&cm); ENTER_CS();
+    int g = rg_gen; rg_inside++;
+    while (rg_gen == g) cwait(&c_gate);
+    rg_done[me]++;
+    LEAVE_CS(); myth_mutex_unlock(&cm);
+  }
+  return (void *)(me + 1);
 }
 /* shape 4: counting semaphore; N waiters block, N posters add a token each and signal */
 static volatile long sem_count, sem_taken, sem_blocked;
@@ -347,6 +364,33 @@ static void cond_run(const long *p, mvsim_runcfg *cfg, mvsim_runstats *st) {
       for (long i = n; i < 2 * n; i++) { TH[i] = myth_create(sem_poster, (void *)i); YIELD(i + 60); }
       join_all(2 * n);
       MVH_CHECK(sem_taken == n && sem_count == 0, "C05-COUNT", "semaphore: %ld tokens taken, %ld left, expected %d taken", (long)sem_taken, (long)sem_count, n);
+      break;
+    }
+    case 5: {
+      int n = (int)p[C_NWAIT]; if (n > 8) n = 8;
+      long rounds = p[C_ROUNDS] > 5 ? 5 : p[C_ROUNDS];
+      rg_gen = rg_inside = 0; memset((void *)rg_done, 0, sizeof rg_done);
+      spawn_all(n, recycle_waiter);
+      for (long r = 0; r < rounds; r++) {
+        for (;;) {
+          myth_mutex_lock(&cm); ENTER_CS();
+          int all = rg_inside == n * (r + 1);
+          if (all) {
+            rg_gen++;
+            if (n == 1 && (wl_mix(p[Q_SEED], r + 77) & 1)) myth_cond_signal(&c_gate); else myth_cond_broadcast(&c_gate);
+            if (wl_mix(p[Q_SEED], r + 99) % 3) {
+              MVH_CHECK(myth_cond_destroy(&c_gate) == 0, "C05-DESTROY", "destroy after broadcast failed");
+              memset(&c_gate, (int)(wl_mix(p[Q_SEED], r) & 0xff), sizeof c_gate);
+              myth_cond_init(&c_gate, 0);
+            }
+          }
+          LEAVE_CS(); myth_mutex_unlock(&cm);
+          if (all) break;
+          myth_yield();
+        }
+      }
+      join_all(n);
+      for (int i = 0; i < n; i++) MVH_CHECK(rg_done[i] == rounds, "C05-BROADCAST", "waiter %d passed the gate %ld times in %ld rounds", i, (long)rg_done[i], rounds);
       break;
     }
     default: {
